@@ -512,7 +512,7 @@ def c02_instances(tier):
               mm_grad_inst([2, 2], False, [2, 1], False, [1], ta=False, tb=False, tc=True),
               mm_grad_inst([2, 1, 2], False, [1, 2, 1], False), mm_grad_inst([1, 1, 2], False, [2, 2, 1], False)]
         I += [conv_inst([], 1, 3, 3, 1, 2, 2, 1, 1, 1), conv_inst([2], 1, 2, 2, 1, 1, 1, 1, 1, 1), conv_inst([], 2, 2, 3, 1, 2, 2, 1, 1, 1),
-              conv_inst([], 1, 3, 4, 2, 2, 2, 1, 2, 1), conv_inst([2], 1, 2, 3, 1, 1, 2, 1, 1, 1), conv_inst([], 1, 4, 3, 1, 2, 1, 2, 1, 1)]
+              conv_inst([], 1, 3, 4, 2, 2, 2, 1, 2, 1), conv_inst([2], 1, 1, 3, 1, 1, 2, 1, 1, 1), conv_inst([], 1, 4, 3, 1, 2, 1, 2, 1, 1)]
         seen = set()
         I = [i for i in I if not (i.name in seen or seen.add(i.name))]
     return I
